@@ -80,6 +80,7 @@ pub struct Stats {
 }
 
 pub const MAX_SAMPLES_PER_WORKER: usize = 2;
+pub const NT_CAP: usize = 1_500_000;
 
 impl Stats {
     pub fn count(&mut self, key: &str) {
@@ -102,8 +103,14 @@ impl Stats {
             self.evaluations += 1;
         }
     }
+    /// Count a distinct non-trivial case. Each worker tracks at most NT_CAP hashes; beyond that
+    /// further cases are not counted (conservative under-count, stated in the evidence).
     pub fn nontrivial(&mut self, h: u64) -> bool {
         if self.frozen {
+            return false;
+        }
+        if self.nontrivial.len() >= NT_CAP {
+            *self.hist.entry("nontrivial_beyond_tracking_cap_not_counted".to_string()).or_insert(0) += 1;
             return false;
         }
         self.nontrivial.insert(h)
